@@ -871,3 +871,53 @@ where
     }
     socket
 }
+
+/// Verification hooks (only compiled with the `verif` feature): thin public wrappers around
+///   the private connection-handling functions so out-of-tree harnesses can drive the real code.
+#[cfg(feature = "verif")]
+#[allow(missing_docs, clippy::too_many_arguments)]
+pub mod verif {
+    use super::*;
+
+    pub fn get_handler<'a, State>(
+        request: &'a Request,
+        subapps: &'a [SubApp<State>],
+        default_subapp: &'a SubApp<State>,
+    ) -> Option<&'a RouteHandler<State>> {
+        super::get_handler(request, subapps, default_subapp)
+    }
+
+    pub fn call_websocket_handler<State>(
+        request: &Request,
+        subapps: &[SubApp<State>],
+        default_subapp: &SubApp<State>,
+        state: Arc<State>,
+        stream: Stream,
+    ) {
+        super::call_websocket_handler(request, subapps, default_subapp, state, stream)
+    }
+
+    pub fn client_handler<State>(
+        stream: Stream,
+        subapps: Arc<Vec<SubApp<State>>>,
+        default_subapp: Arc<SubApp<State>>,
+        error_handler: Arc<ErrorHandler>,
+        state: Arc<State>,
+        monitor: MonitorConfig,
+        timeout: Option<Duration>,
+    ) {
+        super::client_handler(
+            stream,
+            subapps,
+            default_subapp,
+            error_handler,
+            state,
+            monitor,
+            timeout,
+        )
+    }
+
+    pub fn error_handler(status_code: StatusCode) -> Response {
+        super::error_handler(status_code)
+    }
+}
